@@ -19,9 +19,10 @@ def stmtOcc : Stmt → List Symbol
 /-- Every term occurrence of the script, in script order, as the `Symbol` the code builds for it. -/
 def scriptOcc (S : List Stmt) : List Symbol := S.flatMap stmtOcc
 
-/-- Guard (what `parse_terms` guarantees): a function term has no index; a term of an indexed kind has one. -/
+/-- Guard (what `parse_terms` guarantees): function and keyword terms carry no index (`None`), every other term
+    carries one (an `int` or a `str`). -/
 def WellIndexed (S : List Stmt) : Prop :=
-  ∀ s ∈ scriptOcc S, (s.type = .function → s.lags = .none) ∧ (isIndexed s.type = true → s.lags ≠ .none)
+  ∀ s ∈ scriptOcc S, (isIndexed s.type = false → s.lags = .none) ∧ (isIndexed s.type = true → s.lags ≠ .none)
 
 /-- Guard (the C01 grammar): no name is used both as a called function and as anything else. -/
 def NoFunctionClash (S : List Stmt) : Prop :=
